@@ -12,22 +12,46 @@ EXPLANATION = ("Gateway.send is executed per protocol version against the tricho
 
 
 def build(world):
-    return gu.send_units(world)
+    # the three ways a send may end: Gateway.send and the outgoing handlers (written / parked / library error), and - for a parked
+    # message - the release at the destination's next wake (the clauses of the release contract whose ids name C12)
+    units = gu.send_units(world)
+    have = {u.name for u in units}
+    return units + [u for u in hc.build_for(world, PROP) if u.name not in have]
+
+
+def held_messages(tier="quick"):
+    """'held ... and handed to the transport at that node's next wake', bounded: C08's fault enumeration, read for held messages
+    that are neither written nor still held."""
+    from . import C08
+    return C08.fault_scenarios(tier=tier, prop=PROP)
 
 
 def replay(world, ob):
     r = hn.replay(PROP, world, ob)
     if r.get("confirmed"):
         return r
+    if "_handle_sleep_buffer" in ob.get("unit", ""):
+        f, n = held_messages("thorough")
+        if f:
+            return dict(f, confirmed=True, native_runs=n)
     found = hn.search(PROP, hn.VERS, seed=3, budget=1500)
     return dict(found, confirmed=True) if found else r
 
 
 def bounded(world, tier, seed, rep):
-    return hn.bounded(PROP, tier, seed, rep)
+    r = hn.bounded(PROP, tier, seed, rep)
+    f, n = held_messages(tier)
+    r["evaluations"] += n
+    r["scope"] += "; plus every subset (size <= 2) of failing write attempts over 1-4 held commands for two nodes and four wakes, versions 2.0-2.2"
+    r["native_failure"] = r.get("native_failure") or f
+    return r
 
 
 def bounded_search(world, unit_name):
+    if "_handle_sleep_buffer" in unit_name:
+        f, n = held_messages("thorough")
+        if f:
+            return [dict(f, clause="C12/native-fault-enumeration")]
     found = hn.search(PROP, hn.VERS, seed=0, budget=1500)
     return [dict(found, clause="C12/native-differential")] if found else []
 
